@@ -5,6 +5,7 @@
 package c01
 
 import (
+	"bytes"
 	"crypto/sha256"
 	"encoding/hex"
 	"encoding/json"
@@ -121,6 +122,10 @@ func fixedCases(s gen.Service) [][][]byte {
 			{[]byte("RFB 003.008\n"), {1}, {1}, upd, upd},
 			{[]byte("RFB 003.008\n"), {1}, {1}, spf0, upd, upd},
 			{[]byte("RFB 003.008\n"), {1}, {1}, {0, 0, 0, 0, 8, 8, 0, 1, 0, 7, 0, 7, 0, 3, 0, 3, 6, 0, 0, 0}, upd, upd},
+			// more update requests than any queue between the reader and the frame pusher holds
+			{[]byte("RFB 003.008\n"), {1}, {1}, bytes.Repeat(upd, 300)},
+			{[]byte("RFB 003.008\n"), {1}, {1}, spf0, bytes.Repeat(upd, 300)},
+			{[]byte("RFB 003.008\n"), {1}, {1}, {0, 0, 0, 0, 24, 24, 0, 1, 0, 255, 0, 255, 0, 255, 16, 8, 0, 0, 0, 0}, bytes.Repeat(upd, 300)},
 		}
 	case "redis":
 		out := [][][]byte{{[]byte("*0\r\n")}, {[]byte("*1\r\n$4\r\nPING\r\n")}, {[]byte("*1\r\n*0\r\n")}}
@@ -160,7 +165,7 @@ func mkScenario(s gen.Service, seed int64, idx int, concOnly bool) scenario {
 	} else if r.Chance(1, 6) {
 		sc.K = r.PickI([]int{2, 8, 32})
 	}
-	kinds := []string{"lockstep", "lockstep", "pipelined", "truncated", "mutated", "mutated", "raw"}
+	kinds := []string{"lockstep", "lockstep", "pipelined", "truncated", "mutated", "mutated", "raw", "storm"}
 	if s.Special != "" {
 		kinds = append(kinds, s.Special, s.Special, s.Special)
 	}
@@ -197,6 +202,30 @@ func mkScenario(s gen.Service, seed int64, idx int, concOnly bool) scenario {
 	case "raw":
 		sc.Steps = [][]byte{gen.Raw(r)}
 		sc.Seg = r.Intn(3)
+	case "storm":
+		// one message of the dialogue repeated far more often than any queue inside a handler is long
+		i := r.Intn(len(d))
+		if len(d) > 1 && r.Chance(3, 4) {
+			i = 1 + r.Intn(len(d)-1)
+		}
+		n := r.Range(150, 600)
+		if l := len(d[i]); l > 0 && n*l > 128<<10 {
+			n = (128 << 10) / l
+		}
+		if s.Net == "udp" {
+			if n > 40 {
+				n = 40
+			}
+			sc.Steps = append(sc.Steps, d[:i]...)
+			for j := 0; j < n; j++ {
+				sc.Steps = append(sc.Steps, d[i])
+			}
+		} else {
+			sc.Steps = append(sc.Steps, d[:i]...)
+			sc.Steps = append(sc.Steps, bytes.Repeat(d[i], n))
+			sc.Steps = append(sc.Steps, d[i+1:]...)
+		}
+		sc.Seg = 0
 	}
 	if sc.Seg == 1 { // dribble only short streams
 		t := 0
@@ -481,6 +510,10 @@ type ScenarioInfo struct {
 }
 
 // Run executes scenario idx (same generator as C01) and returns what it did.
+// FixedCount is the number of fixed (non-seeded) scenarios of the workload's service; Run serves them at
+// indexes 0..FixedCount()-1.
+func (w *Workload) FixedCount() int { return len(fixedCases(w.Svc)) }
+
 func (w *Workload) Run(seed int64, idx, k int, singleConn bool) ScenarioInfo {
 	sc := mkScenario(w.Svc, seed, idx, false)
 	if singleConn {
